@@ -624,12 +624,20 @@ func (s *scanner) ReadArray() (array Array, err error) {
 			integersSeen = 0
 		}
 
-		if len(array) >= maxArrayLen {
+		// A reference is read as two integers which the "R" above then
+		// replaces by a single element, so one element more than the limit
+		// may be held for a moment; the final length is checked below.
+		if len(array) > maxArrayLen {
 			return nil, &MalformedFileError{
 				Err: errors.New("array too long"),
 			}
 		}
 		array = append(array, obj)
+	}
+	if len(array) > maxArrayLen {
+		return nil, &MalformedFileError{
+			Err: errors.New("array too long"),
+		}
 	}
 	s.pos++ // we have already seen the closing "]"
 
